@@ -208,11 +208,11 @@ def _find_shebang(source):
     """
 
     if isinstance(source, bytes):
-        shebang = re.match(br'^#!.*', source)
+        shebang = re.match(br'^#![^\r\n]*', source)
         if shebang:
             return shebang.group().decode()
     else:
-        shebang = re.match(r'^#!.*', source)
+        shebang = re.match(r'^#![^\r\n]*', source)
         if shebang:
             return shebang.group()
 
